@@ -290,7 +290,7 @@ ApplyFam(fam) ==
      \E r \in Pick({x \in AcceptedRoutes(pend.sites, pend.op, pend.which) : fam \in {"any", Family(x, Len(pend.sites), pend.which)}}) :
        /\ psi' = pend.ref
        /\ outer' = outer /\ sitetags' = sitetags
-       /\ form' = FormAfter(form, r.entry, r.mode, Len(pend.sites))
+       /\ form' = FormAfter(geom.cls, form, r.entry, r.mode, Len(pend.sites))
        /\ ok' = (pend.imp[Family(r, Len(pend.sites), pend.which)] = pend.ref)
        /\ depth' = depth + 1 /\ nrej' = nrej /\ lane' = <<>> /\ pend' = <<>>
        /\ hist' = IF Record THEN Append(hist, Act("apply", r, pend.sites, pend.G, pend.op, pend.which)) ELSE hist
